@@ -490,7 +490,7 @@ func mutate(rt *rapid.T, n *Node, depth int) *Node {
 	used := map[string]bool{}
 	for _, k := range n.Children {
 		switch rapid.IntRange(0, 9).Draw(rt, "edit") {
-		case 0:
+		case 0, 2:
 			continue
 		case 1:
 			if k.Kind == "dir" {
@@ -525,7 +525,7 @@ func TestRandom(t *testing.T) {
 	rec := ev.New(t, prop, "random-trees",
 		"rapid: trees of depth <=4, fan-out <=4 over {a,b,c,ab} (directories, files, links), .dockerignore lists of 0..6 patterns (literals, *, ?, **, classes, leading '/', '!', trailing '/', './', surrounding whitespace; 70% derived from paths of the tree), optionally a peer tree derived by edits and a random set of ancestor directories; core.Scan with the Docker ignorer + ReifyPhantomDirectories compared with the reference walk; "+rule)
 	known := knownClass(rec)
-	ev.Check(t, rec, 2500, 40000, func(rt *rapid.T) {
+	ev.Check(t, rec, 6000, 80000, func(rt *rapid.T) {
 		c := &Case{Alpha: &Node{Kind: "dir"}}
 		var paths, dirs []string
 		c.Alpha.Children = genTree(rt, 0, "", &paths, &dirs)
@@ -566,13 +566,40 @@ func TestRandom(t *testing.T) {
 			at := rapid.IntRange(0, len(c.Patterns)).Draw(rt, "scenario.at")
 			c.Patterns = append(append(append([]string{}, c.Patterns[:at]...), pair...), c.Patterns[at:]...)
 		}
-		if rapid.IntRange(0, 2).Draw(rt, "peer") == 0 {
+		if rapid.Bool().Draw(rt, "peer") {
 			c.Beta = mutate(rt, c.Alpha, 0)
 		}
 		if len(dirs) > 0 && rapid.IntRange(0, 2).Draw(rt, "ancestor") == 0 {
 			k := rapid.IntRange(1, 3).Draw(rt, "nanc")
 			for i := 0; i < k; i++ {
 				c.AncestorDirs = append(c.AncestorDirs, rapid.SampledFrom(dirs).Draw(rt, "anc"))
+			}
+		}
+		// Aim at the reification rule: take a literal exception pattern, make
+		// sure its parent directories exist on alpha, and then either give only
+		// the peer the re-included file or let the ancestor have one of the
+		// parent directories.
+		var literals []string
+		for _, p := range c.Patterns {
+			if ex, text := preprocess(p); ex && strings.Contains(text, "/") && !strings.ContainsAny(text, "*?[") {
+				literals = append(literals, text)
+			}
+		}
+		if len(literals) > 0 && rapid.IntRange(0, 2).Draw(rt, "aim") > 0 {
+			comps := strings.Split(rapid.SampledFrom(literals).Draw(rt, "aim.literal"), "/")
+			ensure(c.Alpha, comps[:len(comps)-1], "dir")
+			switch rapid.IntRange(0, 2).Draw(rt, "aim.how") {
+			case 0:
+				remove(c.Alpha, comps)
+				if c.Beta == nil {
+					c.Beta = &Node{Kind: "dir"}
+				}
+				remove(c.Beta, comps)
+				ensure(c.Beta, comps, "file")
+			case 1:
+				remove(c.Alpha, comps)
+				k := rapid.IntRange(1, len(comps)-1).Draw(rt, "aim.anc")
+				c.AncestorDirs = append(c.AncestorDirs, strings.Join(comps[:k], "/"))
 			}
 		}
 		if excluded(rec, known, c) {
@@ -596,6 +623,20 @@ func TestRandom(t *testing.T) {
 			rec.Class("re-includes-beneath-excluded-directory")
 		}
 		if st.EnteredExcludedDirs > 0 {
+			// How often does the verdict for an excluded directory hinge on
+			// the peer's content or on the ancestor?
+			ref, _ := NewReference(c.Patterns)
+			ca := ref.Classify(c.Alpha)
+			_, ancSet := ancestorEntry(c.AncestorDirs)
+			full, _ := Synchronized(ca, classifyOrNil(ref, c.Beta), ancSet)
+			noPeer, _ := Synchronized(ca, nil, ancSet)
+			noAnc, _ := Synchronized(ca, classifyOrNil(ref, c.Beta), map[string]bool{})
+			if fmt.Sprint(full) != fmt.Sprint(noPeer) {
+				rec.Class("excluded-directory-kept-because-of-peer-content")
+			}
+			if fmt.Sprint(full) != fmt.Sprint(noAnc) {
+				rec.Class("excluded-directory-kept-because-of-ancestor")
+			}
 			rec.Class("nontrivial")
 			if st.IncludedBelowExcl == 0 {
 				rec.Class("entered-excluded-directory-without-included-content")
@@ -606,6 +647,62 @@ func TestRandom(t *testing.T) {
 			}
 		}
 	})
+}
+
+// ensure makes the path exist in the tree: directories along the way (existing
+// non-directories are replaced) and an entry of the given kind at the end
+// (left alone if something of that kind is already there).
+func ensure(n *Node, comps []string, kind string) {
+	for i, c := range comps {
+		want := "dir"
+		if i == len(comps)-1 {
+			want = kind
+		}
+		var next *Node
+		for _, k := range n.Children {
+			if k.Name == c {
+				next = k
+			}
+		}
+		if next == nil {
+			next = &Node{Name: c}
+			n.Children = append(n.Children, next)
+		}
+		if next.Kind != want {
+			next.Kind, next.Children, next.Content = want, nil, ""
+			if want == "file" {
+				next.Content = "aimed"
+			}
+		}
+		n = next
+	}
+}
+
+// remove deletes the entry at the path, if any.
+func remove(n *Node, comps []string) {
+	for i, c := range comps {
+		var next *Node
+		for j, k := range n.Children {
+			if k.Name == c {
+				if i == len(comps)-1 {
+					n.Children = append(append([]*Node{}, n.Children[:j]...), n.Children[j+1:]...)
+					return
+				}
+				next = k
+			}
+		}
+		if next == nil || next.Kind != "dir" {
+			return
+		}
+		n = next
+	}
+}
+
+func classifyOrNil(ref *Reference, n *Node) *cls {
+	if n == nil {
+		return nil
+	}
+	return ref.Classify(n)
 }
 
 func render(n *Node) string {
